@@ -200,10 +200,12 @@ def script_w2(p):
             pos = ift.from_random(ham.domain) * 0.3
             x = ift.from_random(ham.domain)
             pos2 = ift.from_random(ham.domain) * 0.2
-        mini = ift.NewtonCG(ift.AbsDeltaEnergyController(1e-6, iteration_limit=2)) if p["geovi"] else None
+        # napprox >= 2: the sampling minimiser itself draws random numbers (randomised preconditioner)
+        mini = ift.NewtonCG(ift.AbsDeltaEnergyController(1e-6, iteration_limit=2),
+                            napprox=p.get("napprox", 0)) if p["geovi"] else None
         kl = ift.SampledKLEnergy(pos, ham, p["n_samples"], mini, mirror_samples=p["mirror"],
                                  constants=list(p["constants"]), point_estimates=list(p["point_estimates"]),
-                                 comm=comm)
+                                 napprox=p.get("kl_napprox", 0), comm=comm)
         out = {"value": kl.value, "gradient": kl.gradient,
                "samples": list(kl.samples.iterator()), "n_samples": kl.samples.n_samples}
         xx = x.extract(kl.position.domain)
@@ -254,7 +256,8 @@ def script_w4(p, phase=None):
         ns = p["n_samples"]
         kw = {}
         if p["geovi"]:
-            kw["nonlinear_sampling_minimizer"] = ift.NewtonCG(ift.AbsDeltaEnergyController(1e-6, iteration_limit=2))
+            kw["nonlinear_sampling_minimizer"] = ift.NewtonCG(ift.AbsDeltaEnergyController(1e-6, iteration_limit=2),
+                                                              napprox=p.get("napprox", 0))
         if p["constants"] == "callable":
             kw["constants"] = lambda i: ["a"] if i == 0 else []
         elif p["constants"]:
@@ -426,6 +429,7 @@ def run_case(case):
         "empty_rank_explicit_partition": int(script == "W1" and p["partition"] is not None and 0 in p["partition"]),
         "map_run": int(script in ("W4", "W5") and (p["n_samples"] == 0 or isinstance(p["n_samples"], dict))),
         "geovi": int(bool(p.get("geovi"))),
+        "randomised_sampling_minimiser": int(bool(p.get("geovi")) and p.get("napprox", 0) >= 2),
         "hdf5_export": int(bool(p.get("export"))),
         "output_files_compared": len(reffiles) if (reffiles is not None and sig is None) else 0,
         "resumed_on_other_task_count": int(script == "W5" and sig is None and case.get("n2") != n),
@@ -459,9 +463,11 @@ def gen_params(script, rng):
             pe, c = pe[:1], c[:1]
         if set(pe) | set(c) == set(keys) and set(pe) & set(c) == set(pe):
             pe = []
-        return {"model": model, "geovi": rng.random() < 0.4, "mirror": rng.random() < 0.6,
+        geovi = rng.random() < 0.4
+        return {"model": model, "geovi": geovi, "mirror": rng.random() < 0.6,
                 "n_samples": rng.randrange(1, 5), "constants": c, "point_estimates": pe,
-                "posseed": rng.randrange(1000)}
+                "posseed": rng.randrange(1000),
+                "napprox": rng.choice([0, 2, 3]) if geovi else 0, "kl_napprox": rng.choice([0, 0, 2])}
     if script == "W3":
         return {"n_samples": rng.randrange(1, 5), "mirror": rng.random() < 0.5, "posseed": rng.randrange(1000)}
     if script == "W4":
@@ -471,7 +477,8 @@ def gen_params(script, rng):
                 "constants": rng.choice([[], [], ["a"], "callable"]),
                 "point_estimates": rng.choice([[], [], ["b"], "callable"]),
                 "odir": rng.random() < 0.7, "transitions": rng.random() < 0.3,
-                "fresh": rng.choice(["true", "true", "only0", "alt"]), "export": False}
+                "fresh": rng.choice(["true", "true", "only0", "alt"]), "export": False,
+                "napprox": rng.choice([0, 2])}
     if script == "W5":
         p = gen_params("W4", rng)
         p["nit"] = rng.choice([3, 3, 4])
